@@ -114,30 +114,21 @@ Fixpoint read_dec (l : bytes) (seen_dot : bool) : bytes * bytes :=
   | [] => ([], [])
   end.
 
+(* the decimal branch of readNumber: digits with at most one '.', then an optional exponent *)
+Definition read_number_dec (l : bytes) : bytes * bytes :=
+  let (d, r1) := read_dec l false in
+  if (hd0 r1 =? 101) || (hd0 r1 =? 69) then
+    let r2 := tl r1 in
+    let sign := if (hd0 r2 =? 43) || (hd0 r2 =? 45) then [hd0 r2] else [] in
+    let r3 := if (hd0 r2 =? 43) || (hd0 r2 =? 45) then tl r2 else r2 in
+    let (ex, r4) := span is_digit r3 in
+    (d ++ [hd0 r1] ++ sign ++ ex, r4)
+  else (d, r1).
+
 Definition read_number (l : bytes) : bytes * bytes :=
-  match l with
-  | 48 :: x :: r =>
-      if (x =? 120) || (x =? 88) then
-        let (h, r') := span is_hex_digit r in (48 :: x :: h, r')
-      else
-        let (d, r1) := read_dec l false in
-        if (hd0 r1 =? 101) || (hd0 r1 =? 69) then
-          let r2 := tl r1 in
-          let sign := if (hd0 r2 =? 43) || (hd0 r2 =? 45) then [hd0 r2] else [] in
-          let r3 := if (hd0 r2 =? 43) || (hd0 r2 =? 45) then tl r2 else r2 in
-          let (ex, r4) := span is_digit r3 in
-          (d ++ [hd0 r1] ++ sign ++ ex, r4)
-        else (d, r1)
-  | _ =>
-      let (d, r1) := read_dec l false in
-      if (hd0 r1 =? 101) || (hd0 r1 =? 69) then
-        let r2 := tl r1 in
-        let sign := if (hd0 r2 =? 43) || (hd0 r2 =? 45) then [hd0 r2] else [] in
-        let r3 := if (hd0 r2 =? 43) || (hd0 r2 =? 45) then tl r2 else r2 in
-        let (ex, r4) := span is_digit r3 in
-        (d ++ [hd0 r1] ++ sign ++ ex, r4)
-      else (d, r1)
-  end.
+  if (hd0 l =? 48) && ((hd0 (tl l) =? 120) || (hd0 (tl l) =? 88)) then
+    let (h, r') := span is_hex_digit (tl (tl l)) in (48 :: hd0 (tl l) :: h, r')
+  else read_number_dec l.
 
 Definition tok (t : ttype) (l : bytes) : token := {| ttyp := t; tlit := l |}.
 
